@@ -20,6 +20,12 @@ BATCH_TIMEOUT = 600
 
 ALPHABET = ['a', 'b', 'ab', '^a', 'b$', 'a|b', '.', '',
             '!a', '!b', '!^a', '!b$', '!.', '!']
+# patterns that are only independent of one another when each is compiled
+# and applied on its own: inline flags, back-references, named groups,
+# verbose mode, a dangling alternation, a look-ahead
+ALPHABET2 = ['(?i)A', r'(a)\1', '(?P<n>b)a', '(?P<n>a)b', '(?x)a b', 'a|',
+             'B', r'(?s)a.b', '(?=ab)a',
+             '!(?i)B', r'!(b)\1', '!(?P<n>a)a', '!b|', '!A']
 
 
 def EXHAUSTIVE(tier):
@@ -46,6 +52,9 @@ def cases(tier, seed):
     out.append({'kind': 'enum', 'first': None})
     for p in range(len(ALPHABET)):
         out.append({'kind': 'enum', 'first': p})
+    out.append({'kind': 'enum', 'first': None, 'alpha': 2})
+    for p in range(len(ALPHABET2)):
+        out.append({'kind': 'enum', 'first': p, 'alpha': 2})
     nr = 16 if tier == 'thorough' else 4
     for k in range(nr):
         out.append({'kind': 'random', 'seed': seed * 100 + k,
@@ -60,7 +69,17 @@ def cases(tier, seed):
 def check_list(bff, pats, names, stats, viol, model):
     try:
         accept = bff(list(pats))
-    except re.error:
+    except re.error as e:
+        # legitimate only if one of the patterns is not a regex by itself
+        try:
+            for q in pats:
+                re.compile(q[1:] if q.startswith('!') else q)
+        except re.error:
+            return
+        stats['accept_evals'] += 1
+        viol.append({'rule': 'valid-patterns-rejected',
+                     'mech': 'filter-spec',
+                     'detail': {'patterns': list(pats), 'error': str(e)}})
         return
     res = {}
     for nm in names:
@@ -129,13 +148,19 @@ def run_case(case):
     bffs = [zf.build_filtering_func, zfind.build_filtering_func]
     if kind == 'enum':
         names = names_upto(4)
+        alpha = ALPHABET
+        if case.get('alpha') == 2:
+            alpha = ALPHABET2
+            names = [''.join(t) for n in (1, 2, 3)
+                     for t in itertools.product('abAB', repeat=n)] + \
+                ['a\nb', 'a b', 'ab a']
         rng = random.Random(1)
         if case['first'] is None:
-            lists = [()] + [(a,) for a in ALPHABET] + \
-                list(itertools.product(ALPHABET, repeat=2))
+            lists = [()] + [(a,) for a in alpha] + \
+                list(itertools.product(alpha, repeat=2))
         else:
-            f = ALPHABET[case['first']]
-            lists = [(f,) + t for t in itertools.product(ALPHABET, repeat=2)]
+            f = alpha[case['first']]
+            lists = [(f,) + t for t in itertools.product(alpha, repeat=2)]
         for li, pats in enumerate(lists):
             bff = bffs[li % 2]
             stats['lists'] += 1
